@@ -41,6 +41,8 @@ pub struct RngState {
     pub seed: u64,
     /// make every 32-byte draw a valid P-256 scalar (top bit cleared, non-zero)
     pub p256_safe: bool,
+    /// draw from the operating system's RNG (and still log the draws)
+    pub os: bool,
     /// log of draws: (draw index, bytes)
     pub draws: Vec<Vec<u8>>,
 }
@@ -51,6 +53,10 @@ pub struct SharedRng(pub Arc<Mutex<RngState>>);
 impl SharedRng {
     pub fn seeded(seed: u64, p256_safe: bool) -> SharedRng {
         SharedRng(Arc::new(Mutex::new(RngState { seed, p256_safe, ..Default::default() })))
+    }
+    /// Real OS randomness, recorded.
+    pub fn os() -> SharedRng {
+        SharedRng(Arc::new(Mutex::new(RngState { os: true, ..Default::default() })))
     }
     /// The next draws return `bytes` (repeated/truncated to the requested length).
     pub fn script(&self, bytes: &[u8]) {
@@ -79,7 +85,9 @@ impl rand_core::RngCore for VRng {
     }
     fn fill_bytes(&mut self, dest: &mut [u8]) {
         let mut st = self.0 .0.lock().unwrap();
-        if let Some(s) = &st.script {
+        if st.os {
+            rand_core::OsRng.fill_bytes(dest);
+        } else if let Some(s) = &st.script {
             if !s.is_empty() {
                 for (i, d) in dest.iter_mut().enumerate() {
                     *d = s[i % s.len()];
